@@ -20,6 +20,8 @@ func runC15(c *Ctx, r *Report) {
 	r.Rule("C15.R1", "end-of-file / end-of-line pairing: wherever a parser function tests the current (or next) token for EOF it also tests it for EOL, and every parser loop exits when the lookahead is stuck on EOL (shared evaluation with C08.R2)")
 	r.Rule("C15.R2", "end of line is a continuation, not an error: exploring every parser function with the next token fixed to EOL (and then current = next = EOL after a shift), no error is recorded about that token before continuation is requested: peekError is unreachable while peek is EOL, noPrefixParseFnError and direct error appends are unreachable while the current token is EOL")
 	r.Rule("C15.R3", "an input that ends inside a string asks for more: where readString reports a missing closing quote NextToken returns the EOL token under the lineMode test after noting the open string, ParseProgram turns Lexer.OpenString() into the continuation request, and EOLEOF returns the EOL token exactly in line mode")
+	r.Rule("C15.R5", "the closed test of block comments: with the token text fixed to /*, /*/, /* a *, /* a parseComment can only reach the continuation request, with /**/, /* a */, /***/ only the return of the node (branch conditions evaluated on the concrete string)")
+	c.checkClosedCommentTest(r, "C15.R5")
 	r.Rule("C15.R4", "what the session remembers is not reset per input: State.cache is written only by the State constructors and ResetCache, and nothing reachable (static calls and interface invokes) from repl.EvalOne, eval.EvalString or State.Eval calls ResetCache or writes the field")
 	c.checkSessionCacheKept(r, "C15.R4")
 	r.Rule("C16.R5", "(shared) an unfinished token is not the end of the input: in file mode the failed-read edge of readString does not return the end marker")
